@@ -546,6 +546,21 @@ func runSignScenario(w *World, tier string, prop string) (bool, interface{}) {
 				descs = append(descs, fmt.Sprintf("re-proposed under the same ids (done=%v)", done))
 			}
 		}
+		// C01: the documents of the finished batch are proposed again in a NEW batch under their
+		// old message identifiers with corrected (different) payloads (proposers choose the ids;
+		// nothing asks for fresh ones): every signature reconstructed, broadcast or stored for
+		// the new batch has to be a signature of the new payload
+		if prop == "C01" && ok && faulty < 0 && !w.Failed() && c.AllInState(round, StIdle, members) && w.Tape.Bool(1, 4, "reproposeIdsInNewBatch") {
+			rec0, nb0 := c.Tr.Recon, len(c.Tr.Order)
+			if c.ReproposeChanged(perm[w.Tape.Choose(n, "reproposer")], bi.Offset, true) {
+				w.Stats.Fault("message-ids-of-a-finished-batch-reused-in-a-new-batch")
+				done := c.L.RunUntil(func() bool {
+					return len(c.Tr.Order) > nb0 && c.Tr.Recon > rec0 && c.Tr.AllHaveBatch(c.Tr.LastBatch(), members) && c.AllInState(round, StIdle, members)
+				}, stepCap)
+				c.L.Quiesce(10)
+				descs = append(descs, fmt.Sprintf("message ids re-used in a new batch (done=%v)", done))
+			}
+		}
 		if !ok && prop == "C07" && faulty < 0 && !w.Failed() {
 			// the random schedule ran into its step cap: judge only after a
 			// fault-free round-robin phase (bounded liveness, not luck)
